@@ -40,6 +40,13 @@ def rename_hostile(rng, spec):
         a['name'] = amap[a['name']]
         if 'nodes' in a and a['nodes'] is not None:
             a['nodes'] = [nmap[n] for n in a['nodes']]
+        for key in ('asset1_variable', 'asset2_variable'):     # a LinkedAsset refers to wrapped assets / nodes by name
+            if key in a:
+                v = list(a[key])
+                v[0] = amap.get(v[0], v[0])
+                if v[2] is not None:
+                    v[2] = nmap.get(v[2], v[2])
+                a[key] = v
         if 'base' in a: ren(a['base'])
         for x in a.get('assets', []): ren(x)
     for a in spec['assets']: ren(a)
